@@ -677,8 +677,17 @@ where
     type Body = Self;
 
     fn record(mut self, _num_attrs: usize) -> Result<Self::Header, Self::Error> {
-        let AttributePrinter { fmt, strategy, .. } = &mut self;
-        write!(fmt, "({}", strategy.attr_body_padding())?;
+        let AttributePrinter {
+            fmt,
+            strategy,
+            delegated,
+            ..
+        } = &mut self;
+        // A delegated body is written inside the attribute body that was opened for the value it
+        // belongs to.
+        if !*delegated {
+            write!(fmt, "({}", strategy.attr_body_padding())?;
+        }
         Ok(self)
     }
 }
